@@ -1,18 +1,5 @@
-#define DEC_MEM (IORA_TRUE && (in.n >> 40) == 0 && __CPROVER_is_fresh(in.p, in.n) && __CPROVER_is_fresh(out, sizeof(*out)) && (err == NULL || __CPROVER_is_fresh(err, sizeof(*err))))
-#define AMP ((char)38)
-#define SEMI ((char)59)
-#define HASH ((char)35)
-/* ---------------- whole function ---------------- */
-bool Parser_decodeEntities_contract(iora_sv in, iora_ostr *out, Error *err)
-__CPROVER_requires(DEC_MEM)
-__CPROVER_assigns(out->n, out->gk, G_val; err != NULL: *err)
-/* W1 decoding never grows the text */
-ENS(out->n <= in.n)
-/* W2 a failure reports the position of the offending '&' (inside the input) */
-ENS((!RV && err != NULL) ==> (err->offset < in.n && in.p[err->offset] == AMP))
-/* W3 the empty text decodes to the empty text */
-ENS(in.n == 0 ==> (RV && out->n == 0))
-;
+/* ---------------- whole function (contract text in contracts.h) ---------------- */
+DECL_decodeEntities(Parser_decodeEntities_contract, DEC_POST)
 void h_decode(void) { iora_sv in; iora_ostr *o; Error *e; bool r = Parser_decodeEntities(in, o, e); IORA_CANARY("h_decode: returns"); if (r) { IORA_CANARY("h_decode: ok"); } else { IORA_CANARY("h_decode: refused"); } }
 
 /* ---------------- one loop iteration (step) ----------------
